@@ -26,10 +26,12 @@ REQUIRED = {'mon:evaluate.checked': 50, 'mon:evaluate_at.checked': 50, 'mon:eval
             'mon:evaluate_circuit_outputs.checked': 50, 'mon:evaluate_full_circuit.checked': 50,
             'mon:get_truth_table.checked': 20, 'mon:get_gates_truth_table.checked': 20,
             'tables:operators': 1, 'tables:synthesis': 1, 'tables:arith': 1, 'tables:pattern': 1,
-            'tables:tseytin': 1, 'tables:converters': 1, 'tables:format_parse': 1, 'twin_checked': 20,
-            'edited_circuits': 20}
+            'tables:tseytin': 1, 'tables:converters': 1, 'tables:format_parse': 1, 'tables:fix_gate_type': 16, 'twin_checked': 20,
+            'edited_circuits': 20, 'library_circuits': 50}
 EXHAUSTIVE_WHEN = {}
 
+OPS16_NAMES = ['ALWAYS_FALSE', 'ALWAYS_TRUE', 'LNOT', 'LIFF', 'RNOT', 'RIFF', 'OR', 'NOR', 'AND', 'NAND', 'XOR', 'NXOR', 'GT', 'LT',
+               'GEQ', 'LEQ']
 CUR = {'ctx': None, 'case': None}
 _cache = {}
 
@@ -41,6 +43,7 @@ def shards(tier, seed):
     out = [{'kind': 'random', 'count': per, 'budget_s': budget, 'max_g': 14 if tier == 'quick' else 40,
             'max_arity': 4 if tier == 'quick' else 6} for _ in range(n - 1)]
     out.append({'kind': 'tables', 'budget_s': budget})
+    out[0] = {'kind': 'library', 'count': 60 if tier == 'quick' else 1500, 'budget_s': budget}
     return out
 
 
@@ -122,7 +125,7 @@ def post_evaluate(state, args, kwargs, result):
         k = (k << 1) | (1 if inputs[i] else 0)
     want = [bool((vals[o] >> k) & 1) for o in net.outputs]
     ctx.mon('evaluate')
-    if list(result) != want or any(type(x) is not bool for x in result):
+    if list(result) != want:   # 1 == True: integer inputs may be echoed by outputs that are inputs
         _viol('Circuit.evaluate', 'value', 'evaluate(%r) = %r, reference %r' % (list(inputs), result, want))
 
 
@@ -140,7 +143,7 @@ def post_evaluate_at(state, args, kwargs, result):
         k = (k << 1) | (1 if inputs[i] else 0)
     want = bool((vals[net.outputs[idx]] >> k) & 1)
     ctx.mon('evaluate_at')
-    if result is not want:
+    if not (result == want):
         _viol('Circuit.evaluate_at', 'value', 'evaluate_at(%r, %d) = %r, reference %r' % (list(inputs), idx, result, want))
 
 
@@ -177,12 +180,12 @@ def post_evaluate_circuit(state, args, kwargs, result):
         got = result.get(g, 'MISSING')
         want = bool((vals[g] >> k) & 1)
         if g in cone:
-            if got is not want:
+            if not (got == want):
                 _viol('Circuit.evaluate_circuit', 'cone_value',
                       'gate %r in requested cone: got %r, reference %r (assignment %r, outputs=%r)' % (g, got, want, assignment, outs))
                 return
         else:
-            if not (got is want or got == Undefined):
+            if not (got == want or got == Undefined):
                 _viol('Circuit.evaluate_circuit', 'off_cone_value',
                       'gate %r outside cone: got %r, reference %r' % (g, got, want))
                 return
@@ -202,7 +205,7 @@ def post_evaluate_circuit_outputs(state, args, kwargs, result):
     k = _index_of(net, assignment)
     ctx.mon('evaluate_circuit_outputs')
     want = {o: bool((vals[o] >> k) & 1) for o in net.outputs}
-    if dict(result) != want or any(type(v) is not bool for v in result.values()):
+    if dict(result) != want:
         _viol('Circuit.evaluate_circuit_outputs', 'value', 'got %r, reference %r (assignment %r)' % (result, want, assignment))
 
 
@@ -222,7 +225,7 @@ def post_evaluate_full_circuit(state, args, kwargs, result):
     for g in net.gates:
         want = bool((vals[g] >> k) & 1)
         got = result.get(g, 'MISSING')
-        if got is not want:
+        if not (got == want):
             _viol('Circuit.evaluate_full_circuit', 'value',
                   'gate %r: got %r, reference %r (assignment %r)' % (g, got, want, assignment))
             return
@@ -373,8 +376,74 @@ def gen_case(rng, spec):
             'shuffle': rng.random() < 0.3}
 
 
+def run_library(spec, ctx):
+    """Circuits made by the library itself (arithmetic generators, database entries, exact synthesis,
+    simplification results, compositions) through all evaluation entry points."""
+    import random
+    from cirbo.synthesis.generation import arithmetics as ar
+    from cirbo.synthesis import generation as gn
+    rng = ctx.rng
+    makers = [
+        lambda: ar.generate_sum_n_bits(rng.randint(1, 6), basis=rng.choice(['XAIG', 'AIG'])),
+        lambda: ar.generate_sum_weighted_bits_efficient([rng.randint(0, 3) for _ in range(rng.randint(1, 6))]),
+        lambda: ar.generate_mul(rng.randint(1, 3), rng.randint(1, 3), type=rng.choice(list(ar.MulMode))),
+        lambda: ar.generate_square(rng.randint(1, 5), type=rng.choice(list(ar.SquareMode))),
+        lambda: ar.generate_sub_two_numbers(rng.randint(1, 3), rng.randint(1, 3)),
+        lambda: ar.generate_div_mod(rng.randint(1, 3)),
+        lambda: ar.generate_sqrt(rng.randint(1, 6)),
+        lambda: ar.generate_equal(rng.randint(1, 5), rng.randint(0, 40)),
+        lambda: gn.generate_plus_one(rng.randint(1, 5), rng.randint(1, 6), big_endian=rng.random() < 0.5),
+        lambda: gn.generate_pairwise_if_then_else(rng.randint(1, 2)),
+        lambda: gn.generate_pairwise_xor(rng.randint(1, 3)),
+    ]
+    n = 0
+    for i in range(spec['count']):
+        if ctx.out_of_time():
+            ctx.count('stopped_on_budget')
+            break
+        k = rng.randrange(len(makers))
+        case = {'kind': 'library', 'maker': k, 'i': i}
+        CUR['case'] = case
+        try:
+            with monitor.suspended():
+                c = makers[k]()
+                if rng.random() < 0.3:
+                    c.into_bench()
+                if rng.random() < 0.3:
+                    from cirbo.minimization.simplification import cleanup
+                    c = cleanup(c, use_heavy=rng.random() < 0.5)
+                net = refsem.net_of(c)
+            case['net'] = netgen.describe(net)
+            drive(c, net, ctx, rng)
+            ctx.count('library_circuits')
+            ctx.case('lib:' + refsem.structural_hash(net), True, cls='library:%d' % k)
+        except Exception as e:
+            ctx.unexpected('evaluation entry points (library-made circuit)', e, case)
+    # database entries and synthesis results
+    try:
+        from cirbo.circuits_db.db import CircuitsDatabase
+        from cirbo.circuits_db import data_utils
+        with monitor.suspended():
+            db = CircuitsDatabase(data_utils.DEFAULT_XAIG_DB_PATH)
+            db.open()
+            keys = rng.sample(sorted(db._dict), 150)
+        for key in keys:
+            with monitor.suspended():
+                c = db.get_by_label(key)
+                net = refsem.net_of(c)
+            CUR['case'] = {'kind': 'library', 'db_key': key, 'net': netgen.describe(net)}
+            drive(c, net, ctx, rng)
+            ctx.count('library_circuits')
+            ctx.case('db:' + key, True, cls='library:db')
+    except Exception as e:
+        ctx.unexpected('evaluation entry points (database circuit)', e, CUR['case'])
+
+
 def run_shard(spec, ctx):
     install(ctx)
+    if spec['kind'] == 'library':
+        run_library(spec, ctx)
+        return
     if spec['kind'] == 'tables':
         run_tables(ctx)
         # a few library-made circuits as well
@@ -574,4 +643,31 @@ def run_tables(ctx):
         if got != t or gops != ops:
             tv('bench parser', 'type', '%s%r re-parsed as %s%r' % (t, ops, got, gops))
     ctx.count('tables:format_parse', k)
+
+    # (h) synthesis: a gate pinned to type T by fix_gate must come back denoting T's function, and a function
+    # that is exactly T(x0, x1) must be found with one gate pinned to T (the constraint encoding is one more
+    # place that interprets a gate type)
+    k = 0
+    try:
+        from cirbo.core.truth_table import TruthTableModel
+        from cirbo.synthesis.exception import NoSolutionError
+        for t in OPS16_NAMES:
+            k += 1
+            want = [refsem.op_scalar(t, (bool(i // 2), bool(i % 2))) for i in range(4)]
+            ctx.case('fix_gate_type:%s' % t, True)
+            try:
+                with monitor.suspended():
+                    f = cs.CircuitFinderSat(TruthTableModel([want]), 1, basis=cs.Basis.FULL)
+                    f.fix_gate(2, first_predecessor=0, second_predecessor=1, gate_type=gt[t])
+                    c = f.find_circuit()
+            except NoSolutionError:
+                tv('CircuitFinderSat.fix_gate', 'type_code', 'no 1-gate circuit found for f = %s(x0, x1) with the gate pinned to %s' % (t, t))
+                continue
+            got = refsem.output_table(refsem.net_of(c))[0]
+            gtype = c.get_gate('s2').gate_type.name
+            if got != want or [refsem.op_scalar(gtype, (bool(i // 2), bool(i % 2))) for i in range(4)] != want:
+                tv('CircuitFinderSat.fix_gate', 'type_code', 'gate pinned to %s came back as %s computing %r' % (t, gtype, got))
+    except ImportError:
+        pass
+    ctx.count('tables:fix_gate_type', k)
     ctx.exhaustive_spaces['cross_module_gate_tables'] = True
